@@ -24,7 +24,11 @@ TRUSTED = [
     "interval); the virtual-time simulator provides them and every replayed trace is checked against them",
 ]
 ASSUMPTIONS = ["integer-millisecond clock (sub-millisecond float behaviour is not modelled)",
-               "the registry does not change while answers are queued (unregistration is C08's subject)"]
+               "a queued answer whose service is unregistered before its deadline need not (C08: must not) be sent any more: the oracle "
+               "takes the withdrawn records from the scenario's own unregister action, not from the queue",
+               "the registry does not change while a truncated query is being held (candidate answers are read when a packet arrives); "
+               "it does change while answers are queued"]
+UNREG_BASE = 1_000_000   # trace scenarios numbered from here unregister services while answers are queued
 
 GRID = [0, 0, 1, 20, 20, 60, 119, 120, 121, 200, 380, 499, 500, 501, 880, 999, 1000, 1001, 1120, 1200]
 T0 = vsim.T0
@@ -76,8 +80,9 @@ def q_state(q, loop, ids):
     return "%s %s" % (gs, tm)
 
 
-def queue_oracle(res, delayed, sends, adds_log, left, case):
-    """the property's sentences on what a real queue sent"""
+def queue_oracle(res, delayed, sends, adds_log, left, case, removals=()):
+    """the property's sentences on what a real queue sent; `removals` = [(time, [record ids])]: `async_remove_answers` calls
+    (registry changes): a record withdrawn between its add and its deadline is not owed any more"""
     addl, agg = (1000, 200) if delayed else (0, 500)
     for (s, ans, adds) in sends:
         if len(set(ans + adds)) != len(ans + adds):
@@ -87,6 +92,8 @@ def queue_oracle(res, delayed, sends, adds_log, left, case):
                 res.violate("C12:queue-window", "record %d sent at %d outside the window of every add that queued it" % (r, s - T0), case)
     for (c, t, rs) in adds_log:
         for r in rs:
+            if any(c <= u <= c + agg + addl and r in rm for (u, rm) in removals):
+                continue
             if not any(r in ans and c <= s <= c + agg + addl for (s, ans, _a) in sends):
                 res.violate("C12:queue-late", "record %d queued at %d not on the wire within %d ms" % (r, c - T0, agg + addl), case)
     if left:
@@ -105,7 +112,7 @@ def replay_queue_ops(res, delayed, ops):
     loop = FakeLoop()
     zc = FakeZc(loop)
     q = mq.MulticastOutgoingQueue(zc, addl, agg)
-    sends, adds_log = [], []
+    sends, adds_log, removals = [], [], []
     draw_box = [20]
 
     def fire():
@@ -120,13 +127,19 @@ def replay_queue_ops(res, delayed, ops):
         steps = 0
         for op in ops:
             tok = op.split()
-            if tok[0] != "a":
+            if tok[0] not in ("a", "r"):
                 continue
-            clock, now, draw, n = int(tok[1]), int(tok[2]), int(tok[3]), int(tok[4])
+            clock = int(tok[1])
             while loop.timers and loop.timers[0] < clock and steps < 1000:
                 steps += 1
                 fire()
             loop.ms = max(loop.ms, clock)
+            if tok[0] == "r":
+                rm = [] if tok[2] == "-" else [int(x) for x in tok[2].split(",")]
+                q.async_remove_answers([recs[i] for i in rm])
+                removals.append((loop.ms, rm))
+                continue
+            now, draw, n = int(tok[2]), int(tok[3]), int(tok[4])
             ans = {}
             for j in range(n):
                 rid, adds = int(tok[5 + 2 * j]), tok[6 + 2 * j]
@@ -138,7 +151,7 @@ def replay_queue_ops(res, delayed, ops):
             steps += 1
             fire()
     res.evaluations += 1
-    queue_oracle(res, delayed, sends, adds_log, len(q.queue), {"stream": "q", "delayed": delayed, "ops": ops})
+    queue_oracle(res, delayed, sends, adds_log, len(q.queue), {"stream": "q", "delayed": delayed, "ops": ops}, removals)
 
 
 def run_queue_stream(ctx, res, n):
@@ -155,8 +168,9 @@ def run_queue_stream(ctx, res, n):
         loop = FakeLoop()
         zc = FakeZc(loop)
         q = mq.MulticastOutgoingQueue(zc, addl, agg)
-        ops, obs, sends, adds_log = [], [], [], []
+        ops, obs, sends, adds_log, removals = [], [], [], [], []
         nops = rng.choice([2, 4, 8, 16, 30])
+        rm_p = rng.choice([0, 0, 0.15, 0.3])  # registry changes (`async_remove_answers`) between the adds
         draw_box = [20]
         with mock.patch.object(mq, "RAND_INT", lambda lo, hi: draw_box[0]), \
                 mock.patch.object(mq, "current_time_millis", lambda: float(loop.ms)):
@@ -187,6 +201,14 @@ def run_queue_stream(ctx, res, n):
                         continue
                 else:
                     loop.ms += gap
+                if rm_p and rng.random() < rm_p:
+                    # a service is unregistered while answers are queued: some records (queued or not, answers or additionals) are withdrawn
+                    rm = sorted(rng.sample(range(len(recs)), rng.choice([1, 2, 2, 4, 6])))
+                    q.async_remove_answers([recs[i] for i in rm])
+                    removals.append((loop.ms, rm))
+                    ops.append("r %d %s" % (loop.ms, C.natlist(rm)))
+                    obs.append(q_state(q, loop, ids))
+                    continue
                 stale = rng.choice([0, 0, 0, 1, 50, 400, 450, 500, 620]) if rng.random() < 0.35 else 0
                 now = loop.ms - stale
                 draw_box[0] = rng.choice([20, 20, 21, 60, 119, 120, 120, rng.randint(20, 120)])
@@ -206,16 +228,18 @@ def run_queue_stream(ctx, res, n):
                 b = fire()
                 obs.append(q_state(q, loop, ids) + " " + b)
         lines.append("c12q %s %d %s" % (C.b01(delayed), len(ops), " ".join(ops)))
-        cases.append((delayed, ops, obs, sends, adds_log, len(q.queue), loop.ms))
+        cases.append((delayed, ops, obs, sends, adds_log, len(q.queue), loop.ms, removals))
     model = None
     if ctx["driver_ok"]:
         try:
             model = C.run_driver(lines)
         except C.DriverUnavailable as ex:
             res.notes.append("driver unavailable: %s" % ex)
-    for i, (delayed, ops, obs, sends, adds_log, left, end) in enumerate(cases):
+    for i, (delayed, ops, obs, sends, adds_log, left, end, removals) in enumerate(cases):
         res.evaluations += 1
         res.count("q:delayed" if delayed else "q:aggregate")
+        if removals:
+            res.count("q:with-removals")
         addl, agg = (1000, 200) if delayed else (0, 500)
         case = {"stream": "q", "delayed": delayed, "ops": ops}
         # ---- C
@@ -234,7 +258,7 @@ def run_queue_stream(ctx, res, n):
         # ---- O: the window, no duplicates, everything sent
         if any(len(s[1]) > 1 or s[2] for s in sends) and len(adds_log) > 2:
             res.nontriv("q/%s/%d/%d" % (delayed, len(adds_log), len(sends)))
-        queue_oracle(res, delayed, sends, adds_log, left, case)
+        queue_oracle(res, delayed, sends, adds_log, left, case, removals)
 
 
 # ------------------------------------------------------------------------------------------
@@ -329,14 +353,20 @@ def run_scenario(seed, sc_no):
 
     sim.randint = biased
     box = {}
+    unreg_mode = isinstance(sc_no, int) and sc_no >= UNREG_BASE
+    urng = C.rng_for(seed, "c12", "unreg", sc_no)
 
     async def main(sim):
+        import asyncio
+
         from zeroconf import const as k
 
         host = sim.make_host("A", "10.0.0.1")
         zc = host.zc
         await zc.async_wait_for_start()
         infos = R.make_infos(rng)
+        while unreg_mode and len(infos) < 2:  # something must stay registered when a service is withdrawn
+            infos = R.make_infos(rng)
         uni = R.Universe()
         R.seed_universe(uni, infos)
         for inf in infos:
@@ -360,6 +390,40 @@ def run_scenario(seed, sc_no):
                     if o["to"][0] == R.MDNS:
                         return o["t"]
             return None
+
+        registered = list(infos)
+        tries = [0]
+
+        def withdrawn_ids(inf):
+            """what the unregistration of `inf` withdraws, from the scenario's own knowledge (RFC 6762 10.1 / C08): its PTR, SRV,
+            TXT, and the address + NSEC records of its host unless another registered service shares the host"""
+            rs = [inf.dns_pointer(), inf.dns_service(), inf.dns_text()]
+            if not any(o is not inf and o.server.lower() == inf.server.lower() for o in registered):
+                rs += list(inf._get_address_and_nsec_records(None))
+            return sorted({uni.id(r) for r in rs})
+
+        async def unreg_task(inf):
+            # one task step: the checks and everything `async_unregister_service` does before its first suspension (registry,
+            # both `async_remove_answers`) happen in one atomic block
+            # (the last service stays: with an empty registry the listener drops every query before the responder sees it --
+            #  `registry.has_entries`, outside the model)
+            if inf not in registered or len(registered) < 2:
+                return
+            # the candidate answers of a packet are an input of the model, read when the packet arrives: while a truncated query is
+            # being held the registry is left alone (ASSUMPTIONS); the withdrawal happens a few ms after the hold ends
+            if host.transport.protocol._deferred:
+                tries[0] += 1
+                if tries[0] < 1500:
+                    sim.loop.call_later(0.003, do_unreg, inf)
+                return
+            ids_ = withdrawn_ids(inf)
+            registered.remove(inf)
+            actions.append(("unreg", sim.loop.ms - T0, inf.name, ids_))
+            box.setdefault("unregs", []).append((sim.loop.ms, ids_))
+            await zc.async_unregister_service(inf)
+
+        def do_unreg(inf):
+            asyncio.ensure_future(unreg_task(inf))
 
         nqueries = rng.choice([1, 2, 3, 4, 6, 8])
         for _ in range(nqueries):
@@ -426,6 +490,11 @@ def run_scenario(seed, sc_no):
                 data, _qs, _qus = R.build_query(rng, infos, uni, next_id(), probe=probe)
                 host.deliver(data, (src, port))
                 actions.append(("q", now - T0, src, port, data.hex()))
+            if unreg_mode and len(registered) >= 2 and urng.random() < 0.45:
+                # the registry changes while the answers to this query (and earlier ones) are queued: offsets around the jitter,
+                # aggregation and protection bounds
+                off = urng.choice([0, 0, 1, 19, 20, 60, 119, 120, 121, 300, 499, 500, 501, 900, 1019, 1100, 1199, 1201])
+                sim.loop.call_later(off / 1000.0, do_unreg, urng.choice(registered))
         await sim.sleep_ms(9000)
         box["end_t"] = sim.loop.ms
         tr.uninstall()
@@ -567,13 +636,14 @@ def tc_pass(res, tr, blocks, case, end_t):
 def check_trace_O(res, box, case):
     tr = box["tr"]
     blocks = tr.blocks
-    parsed_by_data = {}
-    for b in blocks:
-        if b["kind"] == "rx" and b.get("parsed"):
-            parsed_by_data[b["data"]] = b["parsed"]
     tc_pass(res, tr, blocks, case, box.get("end_t", blocks[-1]["t"] if blocks else 0))
+    # what a datagram asks for is read when it arrives (the registry may change later: the same bytes delivered again after an
+    # unregistration have other candidate answers), so the table is filled in block order and consulted at each assembly
+    parsed_by_data = {}
     asms = []
     for i, b in enumerate(blocks):
+        if b["kind"] == "rx" and b.get("parsed"):
+            parsed_by_data[b["data"]] = b["parsed"]
         if b["asm"] and b["asm"]["npkts"]:
             asms.append((i, b, spec_classes(tr, b, parsed_by_data)))
     mcasts = []  # (block index, time, answers, adds)
@@ -585,11 +655,19 @@ def check_trace_O(res, box, case):
     for (i, s, ans, add) in mcasts:
         if len(set(ans + add)) != len(ans + add):
             res.violate("C12:duplicate-in-batch", "a multicast reply carries a record twice", case)
-    # ---- everything classified is sent in its window
+    # ---- everything classified is sent in its window -- unless its service is unregistered before the window closes (the
+    # scenario's own unregister actions, `box["unregs"]`: then the record is no longer owed, and C08 forbids sending it)
+    unregs = box.get("unregs", [])
+
+    def withdrawn(rid, lo, hi):
+        return any(lo <= u <= hi and rid in ids_ for (u, ids_) in unregs)
+
     for (i, b, classes) in asms:
         c = b["t"]
         for rid, cls, info in classes:
             if info["dontcare"]:
+                continue
+            if cls in ("agg", "free", "prot") and withdrawn(rid, c, c + (500 if cls == "agg" else 1200)):
                 continue
             what = None
             if cls in ("now", "qu-now"):
@@ -667,13 +745,14 @@ def check_trace_O(res, box, case):
 
 
 def trace_case(seed, sc_no, box):
-    return {"stream": "tr", "seed": seed, "scenario": sc_no,
+    return {"stream": "tr", "seed": seed, "scenario": sc_no, "unregisters": sc_no >= UNREG_BASE if isinstance(sc_no, int) else False,
             "services": [(i.name, i.server, i.host_ttl, i.other_ttl) for i in box.get("infos", [])], "actions": box.get("actions")}
 
 
 def run_trace_stream(ctx, res, n, only=None):
     lines, boxes = [], []
-    todo = only if only is not None else [(ctx["seed"], k) for k in range(n)]
+    # n ordinary scenarios, plus n/5 in which services are unregistered while answers are queued (numbered from UNREG_BASE)
+    todo = only if only is not None else [(ctx["seed"], k) for k in range(n)] + [(ctx["seed"], UNREG_BASE + k) for k in range(n // 5)]
     for (seed, sc_no) in todo:
         box = run_scenario(seed, sc_no)
         if "tr" not in box:
@@ -705,8 +784,15 @@ def run_trace_stream(ctx, res, n, only=None):
             # the watchdog silenced the host: the code under test kept the event loop busy without letting time advance
             res.violate("C12:timer-livelock", "the responder stopped making progress: %s; whatever was queued is never sent (the harness muted the host to terminate)" % (
                 tr.dead or box.get("timeout")), case)
-        if tr.orphans:
-            res.notes.append("sends outside any block in scenario %s/%s: %d" % (seed, sc_no, len(tr.orphans)))
+        stray = [o for o in tr.orphans if not R.is_goodbye(o["data"])]
+        if stray:
+            res.notes.append("sends outside any block in scenario %s/%s: %d" % (seed, sc_no, len(stray)))
+        if box.get("unregs"):
+            res.count("tr:unregister-scenarios")
+            res.count("tr:withdrawals", sum(1 for b in tr.blocks if b["kind"] == "rm"))
+            res.count("tr:withdrawals-of-queued-answers", sum(1 for b in tr.blocks if b["kind"] == "rm" and b.get("hit")))
+            if any(b["kind"] == "rm" and b.get("hit") for b in tr.blocks):
+                res.nontriv("tr-unreg/%d/%d" % (sum(1 for b in tr.blocks if b["kind"] == "rm" and b.get("hit")), len(box["unregs"])))
         if model is not None:
             parts = model[idx].split(" | ")
             head, mobs = parts[0], parts[1:]
